@@ -454,6 +454,7 @@ DEFECTS = [
     "ntrees0", "ntrees1", "ntrees7", "bitmap_empty", "incomplete_used", "incomplete_unused", "oversub_used",
     "oversub_unused", "no_eob", "overflow1", "idx_eq_n", "idx_big", "blkcrc", "strmcrc", "trunc", "runlen4",
     "bad_block_magic", "bad_eos_magic", "flipbit", "trailing_stream_trunc", "header_digit0", "short_file",
+    "overflow_stream2",
 ]
 
 
@@ -549,6 +550,14 @@ def one_defect(rng, kind=None, maxlen=300):
         b = Block()
         b.const_run = (rng.below(256), 100000 * level + 1)
         blocks = [b]
+    elif kind == "overflow_stream2":
+        # a later stream of a LOWER level whose block exceeds that stream's declared size (but not the first stream's)
+        l1 = rng.range(3, 9)
+        l2 = rng.range(1, l1 - 1)
+        b2 = Block()
+        b2.const_run = (rng.below(256), 100000 * l2 + rng.choice([1, 2, 1000]))
+        bits = stream(blocks, l1, rng) + stream([b2], l2, rng)
+        return to_bytes(bits), kind, "reject"
     elif kind == "idx_eq_n":
         b.idx_override = len(blk)
     elif kind == "idx_big":
